@@ -214,6 +214,8 @@ class World:
         return self.tids.get(threading.get_ident(), 0)
 
     def abstract(self, name):
+        if isinstance(name, str) and '\x00' in name:
+            return 'L2'          # a locale name with a NUL: used only where L2 is not installed
         return self.abs_of.get(name, name)
 
     def current(self):
@@ -267,6 +269,8 @@ class World:
         try:
             if grant == 'fail':
                 raise locale.Error('unsupported locale setting')
+            if grant == 'crash' or (self.mode == 'sim' and '\x00' in value):
+                raise ValueError('embedded null character')      # what the C wrapper does for a NUL
             if self.mode == 'sim':
                 if value in ('', 'C', 'POSIX'):
                     self.cell = 'C'
@@ -284,6 +288,12 @@ class World:
                 self.emit(tid, 'set', self.abstract(value), 'fail')
             if gated:
                 self.gate.acks.put((tid, err))
+            raise
+        except Exception:          # not a locale.Error: ValueError (embedded NUL), TypeError, MemoryError
+            if tid not in self.aborted:
+                self.emit(tid, 'set', self.abstract(value), 'crash')
+            if gated:
+                self.gate.acks.put((tid, None))
             raise
         if tid not in self.aborted:
             self.emit(tid, 'set', self.abstract(value), 'ok')
@@ -811,6 +821,20 @@ class G:
     def key(st, t):
         return (st['inst'], st['lc0'], st['lc'], st['owner'], st['frames'][t - 1])
 
+    @staticmethod
+    def key_run(st, t):
+        frs = st['frames'][t - 1]
+        r = run_idx(frs)
+        return (st['inst'], st['lc0'], st['lc'], st['owner'], frs[r] if r >= 0 else None, len(frs) - 1 - r if r >= 0 else -1)
+
+    def proj_run(self, t):
+        p = self._proj.get(('run', t))
+        if p is None:
+            p = self._proj[('run', t)] = {}
+            for sid, st in self.states.items():
+                p.setdefault(G.key_run(st, t), sid)
+        return p
+
     def proj(self, t):
         p = self._proj.get(t)
         if p is None:
@@ -934,6 +958,10 @@ def _explain(g: G, other: G, src: int, t: int, matched: list, observed: tuple) -
                     and f['pc'] not in ('start', 'susp') else f for f in st['frames'][t - 1])
         sid = other.proj(t).get((st['inst'], st['lc0'], st['lc'], st['owner'], frs))
     if sid is None:
+        # the thread's OTHER (suspended) frames may be in states only one variant has: what the running
+        # frame does next in __enter__/__exit__ depends on the shared state and on itself
+        sid = other.proj_run(t).get(G.key_run(st, t))
+    if sid is None:
         return 'unmodelled'
     seen = {sid: None}
     dq = collections.deque([sid])
@@ -984,6 +1012,8 @@ def replay_job(job):
             if nxt and LOC[nxt[0][1]] is None:
                 continue
         devs.append(a)
+    fault = 'crash' if any(a == 'SetLocale' and x[1] == 'crash' for (_, _, a, x) in path) else \
+        ('fail' if any(a in ('SetLocale', 'Fallback') and x[1] == 'fail' for (_, _, a, x) in path) else 'none')
     Dn = g.states[path[-1][1]]
     rec = {'variant': variant, 'mode': mode, 'len': len(pe), 'matched': res.get('matched_steps', 0),
            'result': res['kind'], 'devs': devs, 'verdict': 'pass', 'events': res.get('events', 0),
@@ -999,7 +1029,8 @@ def replay_job(job):
         if variant == 'pinned' and devs:
             rec['verdict'] = 'fail'
             cons = '+'.join(x for x, on in (('lock_leak', leak), ('self_wait', selfw), ('blocked', blocked)) if on) or 'none'
-            rec['features'] = {'part': 'replay', 'deviation': devs[0], 'consequence': cons, 'threads': plan['threads']}
+            rec['features'] = {'part': 'replay', 'deviation': devs[0], 'consequence': cons, 'threads': plan['threads'],
+                               'fault': fault}
             rec['expected'] = 'the property variant of CollationLock (no %s)' % devs[0]
             rec['observed'] = {'behaviour_reproduced': acts, 'waits': res.get('waits'), 'locked_at_end': res.get('locked_at_end')}
     else:
@@ -1010,7 +1041,8 @@ def replay_job(job):
             rec['note'] = 'pinned_model_outdated'       # the code does what the property variant does here
         elif variant == 'property' and cls in DEVIATIONS:
             rec['verdict'] = 'fail'
-            rec['features'] = {'part': 'replay', 'deviation': cls, 'consequence': 'diverges', 'threads': plan['threads']}
+            rec['features'] = {'part': 'replay', 'deviation': cls, 'consequence': 'diverges', 'threads': plan['threads'],
+                               'fault': fault}
             rec['expected'] = {'action': st['act'], 'event': res['expected']}
             rec['observed'] = {'event': res['observed'], 'explained_by_pinned_action': cls}
         else:
@@ -1245,6 +1277,13 @@ def eval_cases(tier: str, seed: int) -> list[dict]:
                     cases.append({'mode': mode, 'inst': inst, 'lc0': lc0, 'tpl': tpl, 'A': a, 'B': b,
                                   'expr': t2.replace('{A}', '$a').replace('{B}', '$b'),
                                   'vars': {'a': uri(a, k), 'b': uri(b, k + 1)}})
+        # a collation string with a NUL (only a variable can carry one): setlocale raises ValueError
+        if 'L2' not in inst and lc0 == 'C':
+            for nul in ('C\x00', f'{UCA}?lang=x\x00y', f'{UCA}?lang=x\x00y;fallback=no'):
+                for tpl in (SINGLE[:3] if tier == 'quick' else SINGLE[:14]):
+                    k += 1
+                    cases.append({'mode': mode, 'inst': inst, 'lc0': lc0, 'tpl': tpl, 'A': 'NUL', 'B': None,
+                                  'expr': tpl.replace('{A}', '$a'), 'vars': {'a': nul}})
         # transient faults: setlocale fails although the locale is installed (sim only)
         if mode == 'sim' and 'L1' in inst:
             for faults in (['fail'], ['fail', 'fail'], ['fail', 'ok']):
@@ -1378,7 +1417,8 @@ def sweep_cases(sites: list[dict], tier: str) -> list[dict]:
     colls = [('real', ['L1'], 'cp', CODEPOINT), ('real', ['L1'], 'L1', 'C.utf8'),
              ('real', ['L1'], 'L2', 'de_DE.UTF-8'),                       # unsupported, no fallback
              ('real', ['L1'], 'U2', f'{UCA}?lang=de_DE'),                  # unsupported, fallback missing too
-             ('sim', ['L1', 'FB'], 'U2', f'{UCA}?lang=it_IT')]            # unsupported, the fallback works
+             ('sim', ['L1', 'FB'], 'U2', f'{UCA}?lang=it_IT'),            # unsupported, the fallback works
+             ('real', ['L1'], 'NUL', 'C\x00')]                           # setlocale raises ValueError
     if tier == 'thorough':
         colls += [('sim', ['L1', 'L2', 'FB'], 'L2', 'it_IT.UTF-8'), ('sim', [], 'UFB', UCA),
                   ('real', ['L1'], 'U1', f'{UCA}?lang=C')]
@@ -1388,6 +1428,8 @@ def sweep_cases(sites: list[dict], tier: str) -> list[dict]:
         for shape, (text, kind) in SHAPES.items():
             for (mode, inst, cls, uri) in colls:
                 if tier == 'quick' and mode == 'sim' and kind not in ('rec', 'lazy'):
+                    continue
+                if tier == 'quick' and cls == 'NUL' and shape not in ('plain', 'seq', 'arr1', 'call'):
                     continue
                 k += 1
                 args = []
@@ -1400,7 +1442,7 @@ def sweep_cases(sites: list[dict], tier: str) -> list[dict]:
                         args.append(_synth(ty))
                 expr = f'{site["fn"]}({", ".join(args)})'
                 vars_ = {'c': uri}
-                if k % 3 == 0:          # literal collation: the parser evaluates what is constant
+                if k % 3 == 0 and cls != 'NUL':     # literal collation: the parser evaluates what is constant
                     expr, vars_ = expr.replace('$c', q(uri)), None
                 cases.append({'mode': mode, 'inst': inst, 'lc0': 'C', 'tpl': f'{site["fn"]}#{site["arity"]}', 'A': cls,
                               'B': None, 'expr': expr, 'vars': vars_,
@@ -1591,18 +1633,47 @@ ENV_VALUE = {'LC_ALL': 'C.UTF-8'}       # an installed locale: what it takes for
 
 def env_value(n: str) -> str:
     return ENV_VALUE.get(n, 'value-of-' + n)
-ENT_TEXT = {
-    'none': '<r>t</r>',
-    'internal': '<!DOCTYPE r [<!ENTITY e "x">]><r>&e;</r>',
-    'internal_unused': '<!DOCTYPE r [<!ENTITY e "x">]><r/>',
-    'external': '<!DOCTYPE r [<!ENTITY e SYSTEM "file:///etc/hostname">]><r>&e;</r>',
-    'parameter': '<!DOCTYPE r [<!ENTITY % p "<!ENTITY e \'x\'>"> %p;]><r>&e;</r>',
-    'unparsed': '<!DOCTYPE r [<!NOTATION n SYSTEM "n"><!ENTITY e SYSTEM "x.gif" NDATA n>]><r/>',
-    'nested': '<!DOCTYPE r [<!ENTITY a "aa"><!ENTITY b "&a;&a;">]><r>&b;</r>',
-    'doctype': '<!DOCTYPE r><r/>',
+MARK = 'EXPANDED-ENTITY'
+# kind of XML text -> (DOCTYPE, name of the entity a reference can be made to)
+ENT_DECL = {
+    'none': ('', None),
+    'internal': (f'<!DOCTYPE r [<!ENTITY e "{MARK}">]>', 'e'),
+    'internal_unused': (f'<!DOCTYPE r [<!ENTITY e "{MARK}">]>', None),
+    'external': ('<!DOCTYPE r [<!ENTITY e SYSTEM "file:///etc/hostname">]>', 'e'),
+    'parameter': (f'<!DOCTYPE r [<!ENTITY % p "<!ENTITY e \'{MARK}\'>"> %p;]>', 'e'),
+    'unparsed': ('<!DOCTYPE r [<!NOTATION n SYSTEM "n"><!ENTITY e SYSTEM "x.gif" NDATA n>]>', None),
+    'nested': ('<!DOCTYPE r [<!ENTITY a "EXPANDED-"><!ENTITY b "&a;&a;ENTITY">]>', 'b'),
+    'doctype': ('<!DOCTYPE r>', None),
 }
-PREFIX = {'bare': '', 'ws': '\n  ', 'comment': '<!--c-->', 'pi': '<?p x?>',
-          'xmldecl': '<?xml version="1.0" encoding="utf-8"?>'}
+XML_DECL = '<?xml version="1.0" encoding="utf-8"?>'
+
+
+def prolog(kind: str, size: int) -> str:
+    """Exactly `size` characters of legal XML prolog in front of the DOCTYPE / the root element."""
+    def ws(n):
+        return ('\n' + ' ' * 79) * (n // 80) + ' ' * (n % 80)
+    if kind == 'decl_comment':
+        if size < len(XML_DECL):
+            return ws(size)
+        return XML_DECL + prolog('comment', size - len(XML_DECL))
+    if kind == 'comment' and size >= 7:
+        return '<!--' + 'c' * (size - 7) + '-->'
+    if kind == 'pi' and size >= 6:
+        return '<?p ' + 'x' * (size - 6) + '?>'
+    return ws(size)
+
+
+def entity_text(ek: str, pre: str, size: int, ref: str) -> str:
+    decl, name = ENT_DECL[ek]
+    if name is None:
+        body = '<r>t</r>'
+    elif ref == 'attr':
+        body = f'<r a="&{name};">t</r>'
+    else:
+        body = f'<r>&{name};</r>'
+    return prolog(pre, size) + decl + body
+
+
 DEC_OPS = {
     'div': '1 div 3', 'round': 'round-half-to-even(2.345, 2)', 'mul': "xs:decimal('1.10') * 3",
     'sum': 'sum((0.1, 0.2, 0.3))', 'avg': 'avg((1, 2, 2.5))', 'idiv': '10 idiv 3.3', 'mod': '10.5 mod 3',
@@ -1631,88 +1702,222 @@ def project_globals(act, raw):
         vs = v if isinstance(v, list) else [v]
         return ('names', frozenset(a if (a := {n: k for k, n in NAME_BIND.items()}.get(x)) else '?' for x in vs))
     if act == 'ParseXml':
-        return ('doc',)
+        if v == 'passed':
+            return ('doc',)                    # the defuse_xml helper let the text through
+        # v is the string value of all text and attribute nodes of the parsed document
+        return ('expanded',) if 'EXPANDED' in str(v) else ('doc',)
     if act == 'DefaultCollation':
         return ('codepoint',) if v == CODEPOINT else ('other', str(v))
     return ('any',)
 
 
 
+def _set_environ(want: set, stats) -> None:
+    for n in list(os.environ):           # the application changes its environment (App actions)
+        if n not in want:
+            del os.environ[n]
+            stats['transitions'] += 1
+    for n in want:
+        if n not in os.environ:
+            os.environ[n] = env_value(n)
+            stats['transitions'] += 1
+
+
 def globals_worker(job):
-    """Replays every transition of the Globals graph in one process (history of os.environ kept)."""
-    states, order, out_edges = job
+    """Replays the object-independent transitions of the Globals graph (ParseXml, Decimal, DefaultCollation of the
+    base states) in one process (history of os.environ kept)."""
+    states, order, out_edges, seed = job
     import elementpath
+    from elementpath.etree import defuse_xml
     from elementpath.xpath30 import XPath30Parser
     from elementpath.xpath31 import XPath31Parser
     import xml.etree.ElementTree as ET
     import lxml.etree as LET
     roots = {'etree': ET.XML('<r><a>x</a></r>'), 'lxml': LET.XML('<r><a>x</a></r>')}
     parsers = {'3.0': XPath30Parser, '3.1': XPath31Parser}
+    combos = [(lib, ver) for lib in roots for ver in parsers]
     os.environ.clear()
     fails = []
     stats = collections.Counter()
     samples = []
+    k = seed
 
     for sid in order:
         st = states[sid]
+        edges = [e for e in out_edges.get(sid, ()) if e[1] in ('ParseXml', 'Decimal', 'DefaultCollation')]
+        if not edges:
+            continue
         want = {NAME_BIND[a] for a in st['env']}
-        for n in list(os.environ):           # the application changes its environment (App actions)
-            if n not in want:
-                del os.environ[n]
-                stats['transitions'] += 1
-        for n in want:
-            if n not in os.environ:
-                os.environ[n] = env_value(n)
-                stats['transitions'] += 1
-        for (dst, act, args) in out_edges.get(sid, ()):
-            if act in ('SetVar', 'UnsetVar'):
-                continue
-            exp = states[dst]['res']
-            if act == 'EnvVar':
-                expr, kw, var = 'environment-variable($n)', {'allow_environment': True} if args[1] else {}, {'n': NAME_BIND[args[0]]}
-            elif act == 'AvailVars':
-                expr, kw, var = 'available-environment-variables()', {'allow_environment': True} if args[0] else {}, {}
-            elif act == 'ParseXml':
-                expr, kw, var = f'{args[0]}($x)', {}, {'x': PREFIX[args[2]] + ENT_TEXT[args[1]]}
+        _set_environ(want, stats)
+        for (dst, act, args) in edges:
+            exp = tuple(states[dst]['res'])
+            text = None
+            if act == 'ParseXml':
+                api, ek, pre, size, ref = args
+                text = entity_text(ek, pre, size, ref)
+                expr = f"string-join(({api}($x)//text(), {api}($x)//@*/string()), '|')"
+                kw, var = {}, {'x': text}
             elif act == 'DefaultCollation':
                 expr, kw, var = 'default-collation()', {}, {}
             else:
                 expr, kw, var = DEC_OPS[args[0]], {}, {}
             stats['transitions'] += 1
-            if (act == 'ParseXml' and states[dst]['last']['ek'] != 'none') or (act in ('EnvVar', 'AvailVars', 'DefaultCollation') and st['env']):
+            if (act == 'ParseXml' and args[1] != 'none') or (act == 'DefaultCollation' and st['env']):
                 stats['nontrivial'] += 1       # an entity-declaring text / a non-empty environment
-            for lib, rt in roots.items():
-                for ver, pc in parsers.items():
-                    before = snapshot_globals(None)
+            k += 1
+            # small vectors: every tree library x parser version; large texts: one combination each, rotating
+            todo = combos if not (act == 'ParseXml' and args[3] > 100) else [combos[k % 4]]
+            for lib, ver in todo:
+                rt, pc = roots[lib], parsers[ver]
+                before = snapshot_globals(None)
+                try:
+                    if act == 'ParseXml' and args[0] == 'defuse_xml':
+                        defuse_xml(text if (k + len(lib)) % 2 else text.encode('utf-8'))
+                        raw = ('value', 'passed')
+                    else:      # Selector.select passes its keyword arguments to the dynamic context
+                        raw = ('value', elementpath.Selector(expr, parser=pc).select(rt, variables=dict(var), **kw))
+                except Exception as e:
+                    raw = ('raised', type(e).__name__, str(getattr(e, 'code', None)))
+                stats['evaluations'] += 1
+                obs = project_globals(act, raw)
+                mon = diff_globals(before, snapshot_globals(None))
+                bad = None
+                if exp[0] != 'any' and exp != tuple(obs):
+                    bad = 'result'
+                if mon:
+                    bad = 'globals:' + '+'.join(mon)
+                    if 'decimal_context' in mon:       # keep the following cases independent
+                        decimal.getcontext().prec = before['dec'][0]
+                        decimal.getcontext().rounding = before['dec'][1]
+                if bad:
+                    feat = {'part': 'globals', 'action': act, 'what': bad, 'observed': str(obs[0]),
+                            'arg': args[1] if act == 'ParseXml' else (str(args[-1]) if args else ''),
+                            'fn': args[0] if act == 'ParseXml' else act, 'prefix': args[2] if act == 'ParseXml' else '',
+                            'size_class': ('-' if act != 'ParseXml' else 'small' if args[3] <= 100 else
+                                           'le16K' if args[3] <= 16384 else 'gt16K')}
+                    shown = {kk: (vv if len(str(vv)) < 300 else f'<{len(vv)} characters>') for kk, vv in var.items()}
+                    fails.append((feat, {'kind': 'globals', 'env': sorted(want), 'expr': expr, 'vars': shown, 'kw': kw,
+                                         'lib': lib, 'parser': ver, 'action': act, 'args': list(args)},
+                                  list(exp), [str(x) for x in obs] + [str(raw)[:120]]))
+                elif len(samples) < 3 and act == 'ParseXml' and exp[0] == 'reject' and args[3] > 4096:
+                    samples.append({'part': 'globals', 'vector': list(args), 'text_length': len(text),
+                                    'expected': list(exp), 'observed': str(raw)[:80]})
+    return dict(stats), fails, samples
 
-                    def ev():      # Selector.select passes its keyword arguments to the dynamic context
-                        return elementpath.Selector(expr, parser=pc).select(rt, variables=dict(var), **kw)
-                    try:
-                        raw = ('value', ev())
-                    except Exception as e:
-                        raw = ('raised', type(e).__name__, str(getattr(e, 'code', None)))
-                    stats['evaluations'] += 1
-                    obs = project_globals(act, raw)
-                    mon = diff_globals(before, snapshot_globals(None))
-                    bad = None
-                    if act == 'AvailVars' and tuple(exp) == ('empty',):
-                        exp = ('names', frozenset())          # an empty sequence either way
-                    if exp[0] != 'any' and tuple(exp) != tuple(obs):
-                        bad = 'result'
-                    if mon:
-                        bad = 'globals:' + '+'.join(mon)
-                        if 'decimal_context' in mon:       # keep the following cases independent
-                            decimal.getcontext().prec = before['dec'][0]
-                            decimal.getcontext().rounding = before['dec'][1]
-                    if bad:
-                        feat = {'part': 'globals', 'action': act, 'what': bad,
-                                'arg': args[1] if act == 'ParseXml' else (str(args[-1]) if args else ''),
-                                'fn': args[0] if act == 'ParseXml' else act, 'prefix': args[2] if act == 'ParseXml' else ''}
-                        fails.append((feat, {'kind': 'globals', 'env': sorted(want), 'expr': expr, 'vars': var, 'kw': kw,
-                                             'lib': lib, 'parser': ver, 'action': act, 'args': list(args)},
-                                      list(exp), [str(x) for x in obs] + [str(raw)[:120]]))
-                    elif len(samples) < 3 and act == 'ParseXml' and exp[0] == 'reject':
-                        samples.append({'part': 'globals', 'expr': expr, 'vars': var, 'expected': list(exp), 'observed': str(raw)[:80]})
+
+def envgate_paths(states, init, out_edges, max_apps: int) -> list[list[tuple]]:
+    """Every history of the environment gate: maximal sequences of evaluations through ONE object, the
+    application changing os.environ at most `max_apps` times in between (edges of the TLC graph)."""
+    paths: list = []
+
+    def walk(sid, path, apps, last_app):
+        evals = [e for e in out_edges.get(sid, ()) if e[1] in ('EnvVar', 'AvailVars')]
+        if not evals:
+            if path:
+                paths.append(path)
+            return
+        for e in evals:
+            walk(e[0], path + [(sid, e)], apps, False)
+        if apps < max_apps and not last_app:
+            for e in out_edges.get(sid, ()):
+                if e[1] in ('SetVar', 'UnsetVar'):
+                    walk(e[0], path + [(sid, e)], apps + 1, True)
+    for s0 in init:
+        walk(s0, [], 0, False)
+    return [p for p in paths if p[-1][1][1] in ('EnvVar', 'AvailVars')]
+
+
+def envgate_worker(job):
+    """One object (token / Selector / parser instance / function item) per history, evaluated again and again
+    with the allow_environment flags of the history; every answer comes from the TLC state reached."""
+    states, paths, seed = job
+    import elementpath
+    from elementpath import XPathContext
+    from elementpath.xpath30 import XPath30Parser
+    from elementpath.xpath31 import XPath31Parser
+    import xml.etree.ElementTree as ET
+    import lxml.etree as LET
+    roots = [ET.XML('<r><a>x</a></r>'), LET.XML('<r><a>x</a></r>')]
+    parsers = [('3.1', XPath31Parser), ('3.0', XPath30Parser)]
+    stats = collections.Counter()
+    fails = []
+    samples = []
+    for pi, path in enumerate(paths):
+        S0 = states[path[0][0]]
+        kind, fun = S0['obj'], S0['fun']
+        ver, pc = parsers[(pi + seed) % 2]
+        rt = roots[1] if (pi + seed) % 5 == 0 else roots[0]
+        os.environ.clear()
+        _set_environ({NAME_BIND[a] for a in S0['env']}, collections.Counter())
+        expr = 'environment-variable($n)' if fun == 'envvar' else 'available-environment-variables()'
+        parser = pc()
+        if kind == 'token':
+            thing = parser.parse(expr)
+        elif kind == 'selector':
+            thing = elementpath.Selector(expr, parser=pc)
+        elif kind == 'parser':
+            thing = parser
+        else:
+            thing = None          # the function item, made by the first evaluation
+        hist = []
+        steps_done = []
+        for (sid, (dst, act, args)) in path:
+            D = states[dst]
+            steps_done.append([act, list(args)])
+            if act in ('SetVar', 'UnsetVar'):
+                _set_environ({NAME_BIND[a] for a in D['env']}, stats)
+                continue
+            allow = args[-1]
+            name = NAME_BIND[args[0]] if act == 'EnvVar' else None
+            kw = {'allow_environment': True} if allow else {}
+            var = {'n': name} if name is not None else {}
+            before = dict(os.environ)
+            try:
+                if kind == 'token':
+                    v = thing.evaluate(XPathContext(rt, variables=dict(var), **kw))
+                elif kind == 'selector':
+                    v = thing.select(rt, variables=dict(var), **kw)
+                elif kind == 'parser':
+                    v = thing.parse(expr).evaluate(XPathContext(rt, variables=dict(var), **kw))
+                elif thing is None:
+                    ref = 'environment-variable#1' if fun == 'envvar' else 'available-environment-variables#0'
+                    thing = elementpath.Selector(ref, parser=pc).select(rt, **kw)
+                    v = thing
+                else:
+                    ctx = XPathContext(rt, **kw)
+                    v = thing(name, context=ctx) if fun == 'envvar' else thing(context=ctx)
+                raw = ('value', v)
+            except Exception as e:
+                raw = ('raised', type(e).__name__, str(getattr(e, 'code', None)))
+            stats['evaluations'] += 1
+            stats['transitions'] += 1
+            exp = tuple(D['res'])
+            if exp == ('item',):
+                obs = ('item',) if raw[0] == 'value' and callable(raw[1]) else ('raised', str(raw)[:80])
+            else:
+                obs = project_globals(act, raw)
+                if act == 'AvailVars' and exp == ('empty',):
+                    exp = ('names', frozenset())          # an empty sequence either way
+            hist.append(bool(allow))
+            bad = None
+            if exp != tuple(obs):
+                bad = 'result'
+            if dict(os.environ) != before:
+                bad = 'globals:environ'
+            if len(hist) > 1 and D['env']:
+                stats['nontrivial'] += 1        # a re-used object in a non-empty environment
+            if bad:
+                feat = {'part': 'envgate', 'object': kind, 'fn': act, 'what': bad, 'allow': bool(allow),
+                        'history': ''.join('A' if h else 'd' for h in hist[:-1]) or '-', 'observed': str(obs[0])}
+                fails.append((feat, {'kind': 'envgate', 'object': kind, 'fun': fun, 'parser': ver,
+                                     'env0': sorted(S0['env']),
+                                     'steps': steps_done},
+                              [str(x) for x in exp], [str(x) for x in obs]))
+                break
+        else:
+            if len(samples) < 2 and len(hist) == 3 and hist[0] and not hist[-1] and S0['env']:
+                samples.append({'part': 'envgate', 'object': kind, 'fun': fun, 'env0': sorted(S0['env']),
+                                'history': [[a, list(x)] for (_, (_, a, x)) in path], 'result': 'as the specification says'})
     return dict(stats), fails, samples
 
 
@@ -1907,11 +2112,17 @@ LIVE_CONFIG = dict(threads=2, colls=['L1', 'U2'], kinds=ALL_KINDS, maxcalls=1, c
 LIVE_CONFIG_THOROUGH = dict(threads=3, colls=['L1', 'U2'], kinds={'plain', 'gen'}, maxcalls=1, configs=ALL_CONFIGS[:3], depth=2)
 SAFETY = ['TypeOK', 'Safety', 'NoHoldWhileSuspended']
 GLOBALS_CONSTS = {
-    'quick': dict(Names={'N1', 'N2'}, EntKinds={'none', 'internal', 'internal_unused', 'external', 'parameter', 'unparsed',
-                                                'nested', 'doctype'},
-                  Prefixes={'bare', 'ws', 'comment', 'xmldecl'},
+    'quick': dict(Names={'N1', 'N2'}, Objects={'token', 'selector', 'parser', 'fnitem'}, MaxHist=3,
+                  Apis={'parse-xml', 'parse-xml-fragment', 'defuse_xml'},
+                  EntKinds={'none', 'internal', 'internal_unused', 'external', 'parameter', 'unparsed', 'nested', 'doctype'},
+                  Prologs={'ws', 'comment', 'pi', 'decl_comment'}, Sizes={0, 100, 4097, 16385, 65537},
+                  RefPos={'content', 'attr'},
                   Ops={'div', 'round', 'mul', 'sum', 'big', 'format', 'format_big', 'format_big_double'}),
-    'thorough': dict(Names={'N1', 'N2', 'N3'}, EntKinds=set(ENT_TEXT), Prefixes=set(PREFIX), Ops=set(DEC_OPS)),
+    'thorough': dict(Names={'N1', 'N2', 'N3'}, Objects={'token', 'selector', 'parser', 'fnitem'}, MaxHist=3,
+                     Apis={'parse-xml', 'parse-xml-fragment', 'defuse_xml'}, EntKinds=set(ENT_DECL),
+                     Prologs={'ws', 'comment', 'pi', 'decl_comment'},
+                     Sizes={0, 1, 100, 4095, 4096, 4097, 16383, 16384, 16385, 65537, 1048577},
+                     RefPos={'content', 'attr'}, Ops=set(DEC_OPS)),
 }
 _live_re = re.compile(r'Temporal propert(?:y|ies) .*violated')
 _act_re = re.compile(r'^State \d+: <(\w+(?:\([^)]*\))?)', re.M)
@@ -2021,8 +2232,8 @@ def run(chk: core.Check) -> None:
     def tlc_globals():
         wd = os.path.join(sd, 'globals')
         dot = os.path.join(wd, 'g.dot')
-        cfg = tla.cfg_text(GLOBALS_CONSTS[tier], invariants=['TypeOK', 'BlindByDefault', 'NonInterference', 'AllowedIsExact',
-                                                               'NeverExpanded', 'CollationBlind'], properties=['EvalPreserves'])
+        cfg = tla.cfg_text(GLOBALS_CONSTS[tier], invariants=['TypeOK', 'BlindByDefault', 'HistoryBlind', 'NonInterference',
+                                                               'AllowedIsExact', 'NeverExpanded', 'PositionBlind', 'CollationBlind'], properties=['EvalPreserves'])
         return 'globals', tla.run_tlc('Globals', cfg, wd, workers=2, dump_dot=dot), dot
     tasks.append(ex.submit(tlc_globals))
     f_mon = ex.submit(monitor_paths, chk)
@@ -2085,7 +2296,7 @@ def run(chk: core.Check) -> None:
         'design': {n: {k: (sorted(v) if isinstance(v, (set, frozenset)) else v) for k, v in kw.items()} for n, kw in design},
         'replay': {n: {k: (sorted(v) if isinstance(v, (set, frozenset)) else v) for k, v in kw.items()}
                    for n, kw in REPLAY_CONFIGS[tier]},
-        'globals': {k: sorted(v) for k, v in GLOBALS_CONSTS[tier].items()}}
+        'globals': {k: (sorted(v) if isinstance(v, (set, frozenset)) else v) for k, v in GLOBALS_CONSTS[tier].items()}}
     if set(self_acc) != {900002} or sorted(x[0] for x in self_rej) != [900001, 900003]:
         raise tla.MachineryError(f'binding B self-test: accepted={sorted(self_acc)} rejected={[x[0] for x in self_rej]} '
                                  f'(the canonical trace must be accepted, the ones without release / with a wrong restore rejected)')
@@ -2182,6 +2393,10 @@ def run(chk: core.Check) -> None:
     rej_ids = {x[0]: x[1] for x in ev_rej + st_rej}
     groups: dict = {}
     lockpath = 0
+    faults_of: dict = {}
+    for e in eval_log:
+        if e['e'] == 'set' and e['r'] in ('fail', 'crash'):
+            faults_of.setdefault(e['tr'], set()).add(e['r'])
     for rec in eval_recs:
         a = ev_acc.get(rec['tr'])
         if a is None:
@@ -2197,7 +2412,9 @@ def run(chk: core.Check) -> None:
             lockpath += 1
         if dev == ['unmodelled'] or bad or obs:
             feat = {'part': 'eval', 'deviation': '+'.join(dev) or 'none', 'consequence': '+'.join(bad) or 'none',
-                    'observable': '+'.join(sorted(obs)) or 'none', 'outcome': rec['outcome'][0]}
+                    'observable': '+'.join(sorted(obs)) or 'none', 'outcome': rec['outcome'][0],
+                    'fault': 'crash' if 'crash' in faults_of.get(rec['tr'], ()) else
+                    ('fail' if faults_of.get(rec['tr']) else 'none')}
             if rec['case'].get('sweep'):
                 sw = rec['case']['sweep']
                 feat.update(part='sweep', fn=sw['fn'], shape=sw['shape'], coll=sw['coll'])
@@ -2262,19 +2479,45 @@ def run(chk: core.Check) -> None:
             if d not in seen:
                 seen.add(d)
                 dq.append(d)
-    stats, gfails, gsamples = _in_child(globals_worker, (g.states, order, out))
+    need = {'EnvVar', 'AvailVars', 'ParseXml', 'Decimal', 'DefaultCollation', 'SetVar', 'UnsetVar'}
+    if need - {e[2] for e in g.edges}:
+        raise tla.MachineryError(f'Globals: actions never fired: {sorted(need - {e[2] for e in g.edges})}')
+    gjobs = []
+    for sid in order:
+        edges = [e for e in out[sid] if e[1] in ('ParseXml', 'Decimal', 'DefaultCollation')]
+        for i in range(0, len(edges), 160):
+            gjobs.append(({sid: g.states[sid], **{e[0]: g.states[e[0]] for e in edges[i:i + 160]}}, [sid],
+                          {sid: edges[i:i + 160]}, chk.seed + i))
+    stats: collections.Counter = collections.Counter()
+    gfails, gsamples = [], []
+    for st_, fl_, sm_ in core.pool_map(globals_worker, gjobs, procs=8):
+        stats.update(st_)
+        gfails += fl_
+        gsamples += sm_
+    # the environment gate: every history of <= MaxHist evaluations through one object
+    epaths = envgate_paths(g.states, g.init, out, 1 if tier == 'quick' else 3)
+    estates = g.states
+    estats: collections.Counter = collections.Counter()
+    for st_, fl_, sm_ in core.pool_map(envgate_worker, [(estates, ch, chk.seed) for ch in core.chunked(epaths, 8)], procs=8):
+        estats.update(st_)
+        gfails += fl_
+        gsamples += sm_
+    stats.update(estats)
     gg: dict = {}
     for feat, case, exp, obs in gfails:
         key = json.dumps(feat, sort_keys=True)
         gg.setdefault(key, [feat, case, exp, obs, 0])[4] += 1
     for feat, case, exp, obs, cnt in gg.values():
-        _report(chk, feat, case, exp, obs, f'{case["expr"]} {case["vars"]} env={case["env"]}', cnt)
-    for s in gsamples[:2]:
+        what = f'{case["expr"]} {case["vars"]} env={case["env"]}' if case['kind'] == 'globals' else \
+            f'{case["object"]} {case["fun"]} env0={case["env0"]} steps={case["steps"]}'
+        _report(chk, feat, case, exp, obs, what, cnt)
+    for s in gsamples[:2] + [x for x in gsamples if x.get('part') == 'envgate'][:1]:
         chk.sample(s, cap=12)
     chk.add('transitions', stats.get('transitions', 0))
     chk.add('evaluations', stats.get('evaluations', 0))
     chk.add('distinct_nontrivial', stats.get('nontrivial', 0))
-    chk.add('traces_validated_against_impl', len(order))
+    chk.add('traces_validated_against_impl', len(order) + len(epaths))
+    stats = dict(stats, envgate_histories=len(epaths), envgate_evaluations=estats.get('evaluations', 0))
     chk.coverage['globals'] = stats
 
     # ---- monitor on C01 vectors, thread exploration --------------------------------------------------
@@ -2316,6 +2559,58 @@ def _needs_transient(g: G, p) -> bool:
     return False
 
 
+def replay_envgate(case: dict) -> list:
+    """Re-run one recorded environment-gate history on a fresh object; returns the projected answers."""
+    import elementpath
+    import xml.etree.ElementTree as ET
+    from elementpath import XPathContext
+    from elementpath.xpath30 import XPath30Parser
+    from elementpath.xpath31 import XPath31Parser
+    pc = {'3.0': XPath30Parser, '3.1': XPath31Parser}[case['parser']]
+    rt = ET.XML('<r><a>x</a></r>')
+    kind, fun = case['object'], case['fun']
+    os.environ.clear()
+    for a in case['env0']:
+        os.environ[NAME_BIND[a]] = env_value(NAME_BIND[a])
+    expr = 'environment-variable($n)' if fun == 'envvar' else 'available-environment-variables()'
+    parser = pc()
+    thing = parser.parse(expr) if kind == 'token' else elementpath.Selector(expr, parser=pc) if kind == 'selector' \
+        else parser if kind == 'parser' else None
+    out = []
+    for act, args in case['steps']:
+        if act == 'SetVar':
+            os.environ[NAME_BIND[args[0]]] = env_value(NAME_BIND[args[0]])
+            out.append(('app',))
+            continue
+        if act == 'UnsetVar':
+            os.environ.pop(NAME_BIND[args[0]], None)
+            out.append(('app',))
+            continue
+        allow = args[-1]
+        name = NAME_BIND[args[0]] if act == 'EnvVar' else None
+        kw = {'allow_environment': True} if allow else {}
+        var = {'n': name} if name is not None else {}
+        try:
+            if kind == 'token':
+                v = thing.evaluate(XPathContext(rt, variables=var, **kw))
+            elif kind == 'selector':
+                v = thing.select(rt, variables=var, **kw)
+            elif kind == 'parser':
+                v = thing.parse(expr).evaluate(XPathContext(rt, variables=var, **kw))
+            elif thing is None:
+                thing = elementpath.Selector('environment-variable#1' if fun == 'envvar' else
+                                             'available-environment-variables#0', parser=pc).select(rt, **kw)
+                out.append(('item',) if callable(thing) else ('raised', str(thing)[:60]))
+                continue
+            else:
+                ctx = XPathContext(rt, **kw)
+                v = thing(name, context=ctx) if fun == 'envvar' else thing(context=ctx)
+            out.append(project_globals(act, ('value', v)))
+        except Exception as e:
+            out.append(('raised', type(e).__name__))
+    return out
+
+
 def replay(rec: dict) -> int:
     core.setup_repo_path()
     case = rec['case']
@@ -2349,12 +2644,19 @@ def replay(rec: dict) -> int:
         for n in case['env']:
             os.environ[n] = env_value(n)
         rt = (ET if case['lib'] == 'etree' else LET).XML('<r><a>x</a></r>')
+        if case['action'] == 'ParseXml':
+            case['vars'] = {'x': entity_text(*case['args'][1:])}
         try:
-            out = ('value', elementpath.Selector(case['expr'], parser={'3.0': XPath30Parser, '3.1': XPath31Parser}[case['parser']])
-                   .select(rt, variables=dict(case['vars']), **case['kw']))
+            if case['action'] == 'ParseXml' and case['args'][0] == 'defuse_xml':
+                from elementpath.etree import defuse_xml
+                defuse_xml(case['vars']['x'])
+                out = ('value', 'passed')
+            else:
+                out = ('value', elementpath.Selector(case['expr'], parser={'3.0': XPath30Parser, '3.1': XPath31Parser}[case['parser']])
+                       .select(rt, variables=dict(case['vars']), **case['kw']))
         except Exception as e:
             out = ('raised', type(e).__name__, str(e)[:100])
-        print('expr     :', case['expr'], case['vars'], 'env', case['env'])
+        print('expr     :', case['expr'], {k: str(v)[:80] for k, v in case['vars'].items()}, 'env', case['env'])
         print('observed :', out)
         if out[0] == 'raised':
             out = out[:2] + ('',)
@@ -2366,6 +2668,11 @@ def replay(rec: dict) -> int:
             exp = ('names', frozenset())
         print('projected:', obs)
         reproduces = exp[0] != 'any' and tuple(obs) != exp
+    elif kind == 'envgate':
+        observed = replay_envgate(case)
+        for step, o in zip(case['steps'], observed):
+            print('step     :', step, '->', o)
+        reproduces = bool(observed) and [str(x) for x in observed[-1]] != list(rec['expected'])
     elif kind == 'stress':
         log = []
         r = stress_trace(case['mode'], case['inst'], case['threads'], case['iters'], case['seed'], log=log, tr=1)
